@@ -334,11 +334,75 @@ def _bind(helper_fi, call):
     return bound
 
 
+def known_module_functions():
+    try:
+        with open(KNOWN_PATH) as fh:
+            return set(json.load(fh).get("module_functions", []))
+    except OSError:
+        return None
+
+
+class _ModFuncStub:
+    """just enough of a FuncInfo for _bind"""
+    def __init__(self, node):
+        self.node = node
+        self.self_name = None
+
+
+def inline_module_value_functions(prog):
+    """Private module-level functions that the rule set does not know (not in the frozen list of the pinned tree) and that only decide a
+    value are substituted at their call sites in the same module, like value-only private methods."""
+    known = known_module_functions()
+    done = []
+    if known is None:
+        return done
+    for mi in prog.modules.values():
+        cands = {}
+        for st in mi.tree.body:
+            if isinstance(st, ast.FunctionDef) and st.name.startswith("_") and not st.name.startswith("__") and (mi.name + "." + st.name) not in known \
+                    and not st.decorator_list:
+                e = _as_expression(st)
+                if e is None or any(isinstance(x, ast.Name) and x.id == st.name for x in ast.walk(st)):
+                    continue
+                cands[st.name] = (st, e)
+        if not cands:
+            continue
+
+        class _M(ast.NodeTransformer):
+            def visit_Call(self, node):
+                self.generic_visit(node)
+                if isinstance(node.func, ast.Name) and node.func.id in cands:
+                    fdef, e = cands[node.func.id]
+                    bound = _bind(_ModFuncStub(fdef), node)
+                    if bound is None:
+                        return node
+                    uses = {}
+                    for x in ast.walk(e):
+                        if isinstance(x, ast.Name) and x.id in bound:
+                            uses[x.id] = uses.get(x.id, 0) + 1
+                    if any(not _is_simple(a) and uses.get(p_, 0) > 1 for p_, a in bound.items()):
+                        return node
+                    # comprehension variables of the expression must not capture names of the arguments
+                    comp_vars = {t.id for x in ast.walk(e) if isinstance(x, ast.comprehension) for t in ast.walk(x.target) if isinstance(t, ast.Name)}
+                    if any(isinstance(x, ast.Name) and x.id in comp_vars for a in bound.values() for x in ast.walk(a)):
+                        return node
+                    done.append((mi.name, mi.name + "." + fdef.name, getattr(node, "lineno", 0)))
+                    return ast.copy_location(_Subst({}, bound).visit(_clone(e)), node)
+                return node
+        for st in mi.tree.body:
+            if isinstance(st, ast.FunctionDef) and st.name in cands:
+                continue
+            _M().visit(st)
+        ast.fix_missing_locations(mi.tree)
+    return done
+
+
 def inline_unknown_helpers(prog, known):
     """Mutates the ASTs of prog in place.  Returns [(caller qual, helper qual, line)] for the evidence."""
     done = []
     if known is None:
         return done
+    done += inline_module_value_functions(prog)
     counter = [0]
     for _pass in range(2):
         for ci in list(prog.classes.values()):
